@@ -463,6 +463,13 @@ Record xstate := { x_sys : sys; x_cfg : cfgstate; x_info : list tinfo }.
 Definition spawns_of (cmds : list cmd) : list spawn :=
   flat_map (fun c => match c with Spawn sp => [sp] | Release _ => [] end) cmds.
 
+Definition spawn_thread (x : xstate) (sp : spawn) (e : nat) : xstate :=
+  {| x_sys := {| s_threads := s_threads (x_sys x) ++ [{| t_pc := PAt e; t_r := 0; t_w := false |}];
+                 s_lock := s_lock (x_sys x) |};
+     x_cfg := x_cfg x;
+     x_info := x_info x ++ [{| ti_sp := sp; ti_open := false; ti_local := None;
+                               ti_res := match sp_kind sp with KReg | KRefresh => RDone | _ => RAny end |}] |}.
+
 Section Scenario.
   Variable url_set : bool.
   Variable mprog : list mstep.
@@ -553,16 +560,23 @@ Section Scenario.
         match es with
         | [] => x
         | e :: es' =>
-            let x1 := {| x_sys := {| s_threads := s_threads (x_sys x) ++ [{| t_pc := PAt e; t_r := 0; t_w := false |}];
-                                     s_lock := s_lock (x_sys x) |};
-                         x_cfg := x_cfg x;
-                         x_info := x_info x ++ [{| ti_sp := sp; ti_open := false; ti_local := None;
-                                                   ti_res := match sp_kind sp with KReg | KRefresh => RDone | _ => RAny end |}] |} in
+            let x1 := spawn_thread x sp e in
             run_cmds settle_each cmds' es' (if settle_each then settle fuel_of x1 else x1)
         end
     | Release k :: cmds' =>
         let x1 := open_gate x k in
         run_cmds settle_each cmds' es (if settle_each then settle fuel_of x1 else x1)
+    end.
+  (* the settled state after every command (for "when can a request have returned at the earliest") *)
+  Fixpoint run_trace (cmds : list cmd) (es : list nat) (x : xstate) : list xstate :=
+    match cmds with
+    | [] => []
+    | Spawn sp :: cmds' =>
+        match es with
+        | [] => []
+        | e :: es' => let x1 := settle fuel_of (spawn_thread x sp e) in x1 :: run_trace cmds' es' x1
+        end
+    | Release k :: cmds' => let x1 := settle fuel_of (open_gate x k) in x1 :: run_trace cmds' es x1
     end.
 End Scenario.
 
@@ -614,3 +628,19 @@ Definition predict (pre_fix url_set : bool) (init : cfgstate) (cmds : list cmd) 
   let x := run_cmds url_set ms g true cmds es {| x_sys := init_sys []; x_cfg := init; x_info := [] |} in
   (map (fun '(t, ti) => (finished t, if finished t then ti_res ti else RAny)) (combine (s_threads (x_sys x)) (x_info x)),
    lock_is_free (s_lock (x_sys x)), x_cfg x).
+
+(* per thread: 1 + index of the first command after whose settling the interpreter has the request
+   returned (0 = never): no implementation whose blocking is the model's can return it earlier *)
+Definition thread_finished (x : xstate) (i : nat) : bool :=
+  match nth_error (s_threads (x_sys x)) i with Some t => finished t | None => false end.
+
+Fixpoint first_finished (i : nat) (k : nat) (xs : list xstate) : nat :=
+  match xs with
+  | [] => 0
+  | x :: xs' => if thread_finished x i then S k else first_finished i (S k) xs'
+  end.
+
+Definition predict_done_at (url_set : bool) (init : cfgstate) (cmds : list cmd) : list nat :=
+  let '(ms, g, es) := layout 0 (map (program false) (spawns_of cmds)) in
+  let xs := run_trace url_set ms g cmds es {| x_sys := init_sys []; x_cfg := init; x_info := [] |} in
+  map (fun i => first_finished i 0 xs) (seq 0 (length (spawns_of cmds))).
